@@ -79,13 +79,16 @@ class GenericSubproblemSolver(SubproblemSolver):
            :func:`scico.solver.minimize`.
     """
 
-    def __init__(self, minimize_kwargs: dict = {"options": {"maxiter": 100}}):
+    def __init__(self, minimize_kwargs: Optional[dict] = None):
         """Initialize a :class:`GenericSubproblemSolver` object.
 
         Args:
             minimize_kwargs: Dictionary of arguments for
-                :func:`scico.solver.minimize`.
+                :func:`scico.solver.minimize`. The default, ``None``,
+                selects ``{"options": {"maxiter": 100}}``.
         """
+        if minimize_kwargs is None:
+            minimize_kwargs = {"options": {"maxiter": 100}}
         self.minimize_kwargs = minimize_kwargs
         self.info: dict = {}
 
